@@ -14,9 +14,9 @@
 From Coq Require Import ZArith QArith Qminmax Qabs List Bool Arith String.
 From RC Require Import Base.Num Base.Res Model.Interp Model.InterpRun
   Proofs.Interp Proofs.InterpGrid Proofs.InterpSG Proofs.InterpND Proofs.InterpAgree Proofs.InterpNew
-  Proofs.InterpSpec Proofs.InterpTop.
+  Proofs.InterpSpec Proofs.InterpTop Proofs.InterpCont.
 Import ListNotations.
-Import Interp InterpP InterpG InterpS InterpN InterpA InterpW InterpC InterpT InterpRun.
+Import Interp InterpP InterpG InterpS InterpN InterpA InterpW InterpC InterpT InterpL InterpRun.
 Open Scope Q_scope.
 
 (* ================================================================== 1. cell index (utils::find_nearest_index) *)
@@ -90,7 +90,8 @@ Section SpeedGrade.
 
   (* border_agreement: the prediction is the bilinear polynomial of EVERY cell whose closed rectangle contains the
      (clamped) query; on a shared edge or corner all adjacent cells therefore give the same value.  With each cell
-     polynomial being Lipschitz inside its cell (c14_cell_lipschitz) this is the algebraic content of continuity. *)
+     polynomial being Lipschitz inside its cell (c14_cell_lipschitz) this is the algebraic content of continuity;
+     continuity itself is c14_sg_lipschitz / c14_sg_continuous below. *)
   Theorem c14_sg_border_agreement : forall speed grade,
     exists v, predict speed grade = Ok v /\
       forall i j, axis_cell (x2 m) (qs speed) i -> axis_cell (y2 m) (qg grade) j ->
@@ -113,6 +114,30 @@ Section SpeedGrade.
     (inr (y2 m) (conv_grade grade) -> qg grade = conv_grade grade).
   Proof. exact (tsg_clamp_outside underlying conv_speed conv_grade s_lo s_hi s_bins g_lo g_hi g_bins m Hnew Hsb Hgb). Qed.
 End SpeedGrade.
+
+(* continuity, at full strength: the prediction is globally Lipschitz in the converted inputs -- inside cells, across cell
+   borders and outside the grid (clamping) -- with any constants Kx, Ky bounding the divided differences of the
+   underlying values along the two axes; such constants exist for every table; hence it is uniformly continuous.
+   (The unit conversions are arbitrary functions here, so continuity is stated for the converted speed and grade.) *)
+Section SpeedGradeContinuity.
+  Variable underlying : Q -> Q -> res Q.
+  Variables (s_lo s_hi : Q) (s_bins : nat) (g_lo g_hi : Q) (g_bins : nat) (m : @interp2 QN).
+  Hypothesis Hnew : sg_new (N:=QN) underlying s_lo s_hi s_bins g_lo g_hi g_bins = Ok m.
+  Hypothesis Hsb : (2 <= s_bins)%nat.
+  Hypothesis Hgb : (2 <= g_bins)%nat.
+
+  Theorem c14_sg_lipschitz : forall Kx Ky sv gv sv' gv', dd_bounds m Kx Ky ->
+    exists v v', sg_predict_conv (N:=QN) m sv gv = Ok v /\ sg_predict_conv (N:=QN) m sv' gv' = Ok v' /\
+                 Qabs (v' - v) <= Kx * Qabs (sv' - sv) + Ky * Qabs (gv' - gv).
+  Proof. exact (sg_lipschitz underlying s_lo s_hi s_bins g_lo g_hi g_bins m Hnew Hsb Hgb). Qed.
+
+  Theorem c14_sg_continuous : forall eps, 0 < eps ->
+    exists delta, 0 < delta /\
+      forall sv gv sv' gv', Qabs (sv' - sv) < delta -> Qabs (gv' - gv) < delta ->
+        exists v v', sg_predict_conv (N:=QN) m sv gv = Ok v /\ sg_predict_conv (N:=QN) m sv' gv' = Ok v' /\
+                     Qabs (v' - v) < eps.
+  Proof. exact (sg_continuous underlying s_lo s_hi s_bins g_lo g_hi g_bins m Hnew Hsb Hgb). Qed.
+End SpeedGradeContinuity.
 
 (* `new` succeeds whenever the bounds are ordered, there are two bins per axis and the predictor answers *)
 Theorem c14_sg_new_total : forall underlying s_lo s_hi s_bins g_lo g_hi g_bins,
@@ -160,6 +185,14 @@ Theorem c14_cell_lipschitz : forall (m : @interp2 QN) i j px px' py py',
   + (fr (y2 m) j py - fr (y2 m) j py') *
     ler (t2 (f2 m) i (S j) - t2 (f2 m) i j) (t2 (f2 m) (S i) (S j) - t2 (f2 m) (S i) j) (fr (x2 m) i px').
 Proof. exact t2_lipschitz. Qed.
+
+(* the bilinear interpolant is Lipschitz across the whole grid: for points in possibly different cells *)
+Theorem c14_interp2_lipschitz : forall m Kx Ky i j i' j' x y x' y', valid2 m -> dd_bounds m Kx Ky ->
+  axis_cell (x2 m) x i -> axis_cell (y2 m) y j -> axis_cell (x2 m) x' i' -> axis_cell (y2 m) y' j' ->
+  Qabs (P2 m i' j' x' y' - P2 m i j x y) <= Kx * Qabs (x' - x) + Ky * Qabs (y' - y).
+Proof. exact P2_lipschitz. Qed.
+Theorem c14_lipschitz_constants_exist : forall m, valid2 m -> exists Kx Ky, dd_bounds m Kx Ky.
+Proof. exact dd_bounds_exist. Qed.
 
 (* multilinear_exact, 2-D: c0 + c1 x + c2 y + c3 x y sampled on the grid is reproduced exactly *)
 Theorem c14_interp2_multilinear_exact : forall m px py c0 c1 c2 c3, valid2 m -> inr (x2 m) px -> inr (y2 m) py ->
@@ -348,6 +381,14 @@ Check c14_sg_on_grid : forall (underlying : Q -> Q -> res Q) (conv_speed conv_gr
     conv_speed speed == nq (x2 m) k -> conv_grade grade == nq (y2 m) l ->
     exists v u, sg_predict (N:=QN) conv_speed conv_grade m speed grade = Ok v /\
                 underlying (nq (x2 m) k) (nq (y2 m) l) = Ok u /\ v == u.
+Check c14_sg_continuous : forall (underlying : Q -> Q -> res Q)
+    (s_lo s_hi : Q) (s_bins : nat) (g_lo g_hi : Q) (g_bins : nat) (m : @interp2 QN),
+  sg_new (N:=QN) underlying s_lo s_hi s_bins g_lo g_hi g_bins = Ok m -> (2 <= s_bins)%nat -> (2 <= g_bins)%nat ->
+  forall eps, 0 < eps ->
+    exists delta, 0 < delta /\
+      forall sv gv sv' gv', Qabs (sv' - sv) < delta -> Qabs (gv' - gv) < delta ->
+        exists v v', sg_predict_conv (N:=QN) m sv gv = Ok v /\ sg_predict_conv (N:=QN) m sv' gv' = Ok v' /\
+                     Qabs (v' - v) < eps.
 Check c14_nd_multilinear_exact : forall n gs (v : @arr QN n) pt (P : mpoly n), wf n gs v -> inrs gs pt ->
   (forall ix, inrange gs ix -> entry n ix v == meval n P (coords gs ix)) ->
   exists out, interpolaten (N:=QN) (mk n gs v) pt = Ok out /\ out == meval n P pt.
@@ -410,6 +451,8 @@ Print Assumptions c14_sg_between_surrounding.
 Print Assumptions c14_sg_on_grid.
 Print Assumptions c14_sg_border_agreement.
 Print Assumptions c14_sg_clamp_outside.
+Print Assumptions c14_sg_lipschitz.
+Print Assumptions c14_sg_continuous.
 Print Assumptions c14_sg_new_total.
 Print Assumptions c14_interp2_new_valid.
 Print Assumptions c14_interp2_convex.
@@ -418,6 +461,8 @@ Print Assumptions c14_interp2_border_agreement.
 Print Assumptions c14_border_agreement_x.
 Print Assumptions c14_border_agreement_y.
 Print Assumptions c14_cell_lipschitz.
+Print Assumptions c14_interp2_lipschitz.
+Print Assumptions c14_lipschitz_constants_exist.
 Print Assumptions c14_interp2_multilinear_exact.
 Print Assumptions c14_interp2_outside_rejected.
 Print Assumptions c14_interp2_wrong_length_rejected.
